@@ -104,6 +104,8 @@ def snippets():
     add('switch-without-field', [F('k1', 'char'), {'tag': 'switch', 'attrs': {}, 'cases': [CASE('1')]}])
     add('lone-default-case', [F('k1', 'char'), SW('k1', CASE(None, F('z', 'char'), default=True))])
     add('lone-empty-default-case', [F('k1', 'char'), SW('k1', CASE(None, default=True))])
+    add('default-case-first', [F('k1', 'char'), SW('k1', CASE(None, F('z', 'char'), default=True), CASE('1', F('y', 'char')))])
+    add('empty-default-case-first', [F('k1', 'char'), SW('k1', CASE(None, default=True), CASE('2'), CASE('3', F('y', 'char')))])
     add('case-value-not-integer', [F('k1', 'char'), SW('k1', CASE('x'))])
     add('case-without-value', [F('k1', 'char'), SW('k1', CASE(None, F('z', 'char')))])
     add('enum-case-by-declared-ordinal', [F('hk', 'HostKind'), SW('hk', CASE('1'))])
